@@ -48,7 +48,8 @@ def fl(xs):
 
 
 def streams(ss):
-    return ';'.join(fl(s) for s in ss) if len(ss) else '-'
+    """';'-separated streams, '-' for an empty stream, '_' for no stream at all"""
+    return ';'.join(fl(s) for s in ss) if len(ss) else '_'
 
 
 def il(xs):
@@ -61,7 +62,7 @@ def parse_fl(s):
 
 def parse_hex_streams(s):
     s = s.strip()
-    return [] if s in ('-', '') else [([] if p == '-' else p.split(',')) for p in s.split(';')]
+    return [] if s in ('_', '') else [([] if p == '-' else p.split(',')) for p in s.split(';')]
 
 
 # ---------------------------------------------------------------- build
